@@ -10,7 +10,7 @@ import re
 from collections import Counter
 
 from mc.checks import c02
-from mc.drivers import bpm, mutate
+from mc.drivers import bpm, ladder as _ladder, mutate
 from mc.drivers.scenarios import SCENARIOS
 from mc.engine import e2
 from mc.engine.core import Collector, Result, Violation
@@ -234,6 +234,54 @@ def oracle(sc, ctx, program):
 
 _TIER = "quick"
 
+LADDER = {"quick": list(range(0, 19)) + [31, 32, 33], "thorough": list(range(0, 70)) + [127, 128, 129, 255, 256, 257]}
+
+
+def ladder_hugr(kind, n):
+    """Size ladder: nodes with n ports / n children / a port with n links (what the builder programs, with
+    rows of length <= 3, never reach)."""
+    from hugr import ops, tys
+    from hugr.build.dfg import Dfg
+    from hugr.std.logic import Not
+
+    if kind == "wide":  # Input with n outputs, MakeTuple with n inputs, UnpackTuple with n outputs, Output with n inputs
+        d = Dfg(*[tys.Bool] * n)
+        t = d.add_op(ops.MakeTuple(), *d.inputs())
+        u = d.add_op(ops.UnpackTuple(), t)
+        d.set_outputs(*[u[i] for i in range(n)])
+        return d.hugr
+    if kind == "fanout":  # one out port with n links (n + 1 with the Output)
+        d = Dfg(tys.Bool)
+        (a,) = d.inputs()
+        ns = [d.add(Not(a)) for _ in range(n)]
+        d.set_outputs(a, *ns[:2])
+        return d.hugr
+    # "chain": n siblings in a row joined by value and order edges
+    d = Dfg(tys.Bool)
+    (w,) = d.inputs()
+    prev = None
+    for _ in range(n):
+        nd = d.add(Not(w))
+        if prev is not None:
+            d.add_state_order(prev, nd)
+        prev, w = nd, nd[0]
+    d.set_outputs(w)
+    return d.hugr
+
+
+def ladder_cases(tier):
+    for kind in ("wide", "fanout", "chain"):
+        for n in LADDER[tier]:
+            yield [kind, n]
+    # the shared families (nesting depth, cases, blocks, loops, functions, polymorphic calls, index reuse)
+    for case in _ladder.cases_for(tier, families=[f for f in _ladder.FAMILIES if f not in ("wide", "fanout", "chain")]):
+        yield case
+
+
+def check_ladder(case):
+    h = ladder_hugr(*case) if len(case) == 2 else _ladder.build(case)
+    return [(f"{sig}:ladder-{case[0]}", f"{msg} | ladder={case}") for sig, msg in check_hugr(h, "built", few_configs=True)]
+
 
 def run(tier: str, seed: int) -> Result:
     global _DEPTH, _TIER
@@ -245,6 +293,11 @@ def run(tier: str, seed: int) -> Result:
         case["depth"] = _DEPTH
         case["tier"] = tier
         col.add(sig, msg, case)
+    n_ladder = 0
+    for case in ladder_cases(tier):
+        n_ladder += 1
+        for sig, msg in check_ladder(case):
+            col.add(sig, msg, {"ladder": case, "tier": tier})
     ncfg = len(configs())
     cov = {
         "states": r.states,
@@ -254,13 +307,16 @@ def run(tier: str, seed: int) -> Result:
         "distinct_nontrivial": r.nontrivial,
         "rule": f"every complete builder program of the plan (mutation depth {_DEPTH}) x {ncfg} render configurations; the DOT source is "
         "parsed (R9) and node statements, port cells, cluster nesting, edge statements and value labels are compared with the "
-        "HUGR's public queries; HUGR dump identical before/after; outputs equal across configurations modulo colours/extension prefix",
+        "HUGR's public queries; HUGR dump identical before/after; outputs equal across configurations modulo colours/extension prefix; "
+        "plus a size ladder (nodes with n ports, a port with n links, n chained siblings; n = 0..18, 31..33, thorough 0..69, 127..129, 255..257)",
         "samples": r.samples or [{"scenario": "D1", "program": []}],
         "exhaustive": True,
         "plan": plan,
         "render_configurations": [n for n, _ in configs()],
         "complete_programs": r.complete_programs,
         "feature_counts": r.features,
+        "ladder_cases": n_ladder,
+        "ladder": {"kinds": ["wide (n ports on Input/MakeTuple/UnpackTuple/Output)", "fanout (n links on one port)", "chain (n siblings, value + order edges)"], "n": LADDER[tier]},
     }
     return Result(cov, col.violations, ["R9 DOT reader: mc/ref/dot.py", "the `dot` layout binary is never invoked"])
 
@@ -269,6 +325,8 @@ def replay(case) -> list[Violation]:
     global _DEPTH, _TIER
     _DEPTH = case.get("depth", 0)
     _TIER = case.get("tier", "quick")
+    if "ladder" in case:
+        return [Violation(s, m, case) for s, m in check_ladder(case["ladder"])]
     sc = SCENARIOS[case["scenario"]]
     ctx = bpm.run(sc, case["program"])
     return [Violation(s, m, case) for s, m in oracle(sc, ctx, case["program"])]
